@@ -427,7 +427,7 @@ func init() {
 	})
 	vc.Register(&vc.Check{
 		ID: "C16", Level: "model_checking",
-		Rule: "(a) Package.StatisticalMissSegments on EVERY set of pairwise disjoint received chunks for file sizes 1..10 (thorough 12), plus every chunk set of the small shapes scaled by 2^28, 2^29, 0x1FFFFFFF, 0x33333333, 0x7FFFFFFF and 0xFFFFFFFF (files of gigabytes: offsets and lengths beyond 2^31, sizes up to 2^32-1), plus sizes up to 600 with 255 single-byte gaps, adjacent chunks, gaps at start/middle/end; (b) the wire form: T0x1212.ReplyBody -> P0x9212.Encode decoded by the reference and by P0x9212.Parse for every such gap list; (c) over the socket for sizes <= 5: announce, send every disjoint chunk set in every order (<= 3 chunks), 0x1212 -> 'retransmit' with exactly the gaps, resend exactly those, 0x1212 -> 'complete'. " +
+		Rule: "(a) Package.StatisticalMissSegments on EVERY set of pairwise disjoint received chunks for file sizes 1..10 (thorough 12), plus every chunk set of the small shapes scaled by 2^28, 2^29, 0x1FFFFFFF, 0x33333333, 0x7FFFFFFF and 0xFFFFFFFF (files of gigabytes: offsets and lengths beyond 2^31, sizes up to 2^32-1), plus sizes up to 600 with 255 single-byte gaps, adjacent chunks, gaps at start/middle/end; (b) the wire form: T0x1212.ReplyBody -> P0x9212.Encode decoded by the reference and by P0x9212.Parse for every such gap list; (c) over the socket for sizes <= 5: announce, send every disjoint chunk set in every order (<= 3 chunks), 0x1212 -> 'retransmit' with exactly the gaps, resend exactly those, 0x1212 -> 'complete'; and two files (3 and 2 bytes) in one session: every pair of chunk sets, either file's chunks first, 0x1212 for both (the report is about the file it names, whichever file's chunk came last). " +
 			"states = distinct (size, received set) states, transitions = evaluations. Non-trivial = at least one gap",
 		Assumptions: []string{"reference interval complement in checks/c15.go"},
 		Run:         c16Run,
@@ -856,6 +856,48 @@ func c16Run(ctx *vc.Ctx, rep *vc.Report) {
 					}
 				}
 			})
+		}
+		// two files in one session: every pair of chunk sets (files of 3 and 2 bytes), the chunks of one file before the
+		// other's, then 0x1212 for both: the report for a file is about THAT file, whichever file's chunk came last
+		var setsA, setsB [][][2]int
+		chunkSets(3, func(cs [][2]int) { setsA = append(setsA, cs) })
+		chunkSets(2, func(cs [][2]int) { setsB = append(setsB, cs) })
+		for _, a := range setsA {
+			for _, b := range setsB {
+				for _, bFirst := range []bool{false, true} {
+					c := upCase{Dialect: di, AlarmID: "a16", Files: []upFile{{Name: "f16a.bin", Data: upData(3, 5)}, {Name: "f16b.bin", Data: upData(2, 9)}}, Finish: true, Second: true, Seg: "unit"}
+					var ca, cb []upChunk
+					for _, x := range a {
+						ca = append(ca, upChunk{File: 0, Off: x[0], Len: x[1]})
+					}
+					for _, x := range b {
+						cb = append(cb, upChunk{File: 1, Off: x[0], Len: x[1]})
+					}
+					if bFirst {
+						c.Chunks = append(cb, ca...)
+					} else {
+						c.Chunks = append(ca, cb...)
+					}
+					idx++
+					if !ctx.Mine(idx) {
+						continue
+					}
+					sig, diag, reads, _ := upEval(c, "C16")
+					rep.Evaluations++
+					rep.States++
+					rep.Transitions += int64(reads)
+					rep.TracesValidated++
+					if len(upMissing(3, c.Chunks, 0))+len(upMissing(2, c.Chunks, 1)) > 0 {
+						rep.Nontrivial++
+					}
+					if sig != "" {
+						rep.Outcome("fail:socket2:" + sig)
+						rep.Add("socket2:"+sig, diag, "up", c)
+					} else {
+						rep.Outcome("ok-socket-two-files")
+					}
+				}
+			}
 		}
 	}
 }
